@@ -205,6 +205,18 @@ class Typer:
                     raise Unknown("non-constant power of a code")
                 return Ty("code", base.t * k, base.ops)
             raise Unknown("power %s" % src(e)[:50])
+        if isinstance(op, (ast.LShift, ast.RShift)):
+            # the shift count is a number of bits (a term), not a code; np.array(k, dtype=...) / int(k) wrappers are transparent
+            l = self.ty(e.left)
+            cnt = e.right
+            while isinstance(cnt, ast.Call) and dotted(cnt.func) in ("np.array", "np.asarray", "int", "np.int64", "np.uint64", "np.int_") and cnt.args:
+                cnt = cnt.args[0]
+            if l.kind == "code":
+                k = self.term(cnt)
+                if isinstance(op, ast.RShift):
+                    self.events.append(("floorshift", e))
+                    return Ty("code", l.t - k, l.ops)
+                return Ty("code", l.t + k, l.ops)
         l, r = self.ty(e.left), self.ty(e.right)
         if isinstance(op, ast.Mult):
             if l.kind == "code" and r.kind == "code":
@@ -225,6 +237,7 @@ class Typer:
             if l.kind == "code" and r.kind == "code":
                 return Ty("code", l.t - r.t, l.ops | r.ops, {"floordiv": True})
             if l.kind == "code" and r.kind == "pow2":
+                self.events.append(("floorshift", e))
                 return Ty("code", l.t - r.t, l.ops, {"floordiv": True})
         if isinstance(op, ast.Div):
             self.events.append(("truediv", e))
@@ -235,6 +248,7 @@ class Typer:
         if isinstance(op, ast.LShift) and l.kind == "code":
             return Ty("code", l.t + self.term(e.right), l.ops)
         if isinstance(op, ast.RShift) and l.kind == "code":
+            self.events.append(("floorshift", e))
             return Ty("code", l.t - self.term(e.right), l.ops)
         if isinstance(op, (ast.Add, ast.Sub)) and {l.kind, r.kind} == {"code", "num"}:
             c = l if l.kind == "code" else r
